@@ -236,7 +236,9 @@ pub struct Trapped {
 impl Trapped {
     /// True if the panic originated in the harness (=> harness error, inconclusive).
     pub fn in_harness(&self) -> bool {
-        self.loc.contains("lrv-") || self.loc.contains("/verif/")
+        // harness sources are reported relative to the workspace root ("lrv-codec/src/..");
+        // anything else (also a scratch copy of the repository under any name) is code under test
+        self.loc.starts_with("lrv-") || self.loc.contains("/harness/lrv-") || self.loc.starts_with("/verif/")
     }
     /// Location with the line number stripped (stable signatures).
     pub fn file(&self) -> String {
